@@ -32,7 +32,9 @@ def nodeid(t):
 
 # load-sensitive tests (benchmark timings, 900 s time-outs under a busy machine): re-run what did not
 # pass once more, alone and without xdist, before calling it a failure
-if missing and len(missing) <= 40 and os.environ.get("BASELINE_RETRY", "1") == "1":
+for attempt in range(3):   # some tests draw unseeded random data and fail now and then on the unchanged tree too
+    if not (missing and len(missing) <= 40 and os.environ.get("BASELINE_RETRY", "1") == "1"):
+        break
     ids = [n for n in map(nodeid, missing) if n]
     with tempfile.TemporaryDirectory() as d:
         xml = os.path.join(d, "r2.xml")
